@@ -666,31 +666,81 @@ def evaluate_payload_template(input, context, template):
         func, args = intrinsic.split("(", 1)
         func = func.strip()
         normalised_func = func.replace("States.", "asl_intrinsic_")
-        # Extract raw args string
-        args = args.rsplit(")", 1)[0]
+        # Extract raw args string, nothing may follow the closing parenthesis.
+        args, closing, trailing = args.rpartition(")")
+        if not closing or trailing.strip():
+            raise IntrinsicFailure(
+                "Intrinsic Function {} is malformed.".format(intrinsic)
+            )
 
         """
         Extract the individual args from the raw string into a list. Intrinsic
         Function arguments may be strings enclosed by apostrophe (') characters,
-        numbers, null, Paths, or nested Intrinsic Functions. The regex finds
-        each valid argument as follows:
-        \'.*?(?<!\\\\)\'        extracts apostrophe delimited string. This uses
-            a negative lookbehind to match a closing ' only if not preceeded
-            by a \\ in order to support escaped apostrophes in the string.
-        States.*?\\)            extracts nested intrinsic
+        numbers, null, Paths, or nested Intrinsic Functions.
 
-        String and nested intrinsics can contain commas so we explicitly match
-        those cases, but the last part of the regex '|[^\\s*,]+' just matches
-        anything except whitespace comma. We actually *want* a fairly loose
-        match here so if we have an invalid number like f123.45 it would match
-        but subsequent evaluation would raise an IntrinsicFailure which we want.
+        The args are split at the commas that are neither inside an apostrophe
+        delimited string (where \\' is an escaped apostrophe) nor inside the
+        parentheses of a nested intrinsic, so strings may contain commas and
+        parentheses and intrinsics may be nested to any depth. We *want* a
+        fairly loose match for the other arguments, so if we have an invalid
+        number like f123.45 it is extracted here, but subsequent evaluation
+        raises an IntrinsicFailure which we want.
         """
-        arglist = re.findall('\'.*?(?<!\\\\)\'|States.*?\\)|[^\\s*,]+', args)
+        arglist = []
+        current = []
+        depth = 0
+        in_string = False
+        i = 0
+        while i < len(args):
+            c = args[i]
+            if in_string:
+                current.append(c)
+                if c == "\\" and i + 1 < len(args):
+                    i += 1
+                    current.append(args[i])
+                elif c == "'":
+                    in_string = False
+            elif c == "," and depth == 0:
+                arglist.append("".join(current).strip())
+                current = []
+            else:
+                if c == "'":
+                    in_string = True
+                elif c == "(":
+                    depth += 1
+                elif c == ")":
+                    depth -= 1
+                    if depth < 0:
+                        break
+                current.append(c)
+            i += 1
+        if in_string or depth != 0:
+            raise IntrinsicFailure(
+                "Intrinsic Function {} has unbalanced quotes or parentheses.".format(func)
+            )
+        last = "".join(current).strip()
+        if last or arglist:
+            arglist.append(last)
 
         # Evaluate the arguments
         for i, arg in enumerate(arglist):
             if arg.startswith("'"):  # It's an apostrophe delimited string
-                arglist[i] = arg.strip("'")
+                # Remove the delimiters and unescape \\' and \\\\, an unescaped
+                # apostrophe may only be the last character of the argument.
+                value = []
+                j = 1
+                while j < len(arg) - 1:
+                    if arg[j] == "\\" and arg[j + 1] in "'\\" and j + 1 < len(arg) - 1:
+                        j += 1
+                    elif arg[j] == "'":
+                        break
+                    value.append(arg[j])
+                    j += 1
+                if j != len(arg) - 1 or arg[j] != "'" or len(arg) < 2:
+                    raise IntrinsicFailure(
+                        "Intrinsic Function {}, Invalid argument {}.".format(func, arg)
+                    )
+                arglist[i] = "".join(value)
             elif arg.startswith("$"):  # It's a path
                 arglist[i] = apply_path(input, context, arg)
             elif arg.startswith("States."):  # It's a nested intrinsic function
@@ -708,6 +758,11 @@ def evaluate_payload_template(input, context, template):
                 arglist[i] = True
             elif arg == "false":
                 arglist[i] = False
+            elif not re.fullmatch(r"-?(0|[1-9][0-9]*)(\.[0-9]+)?([eE][+-]?[0-9]+)?", arg):
+                # int() and float() also accept things like +5, 1_0, nan or inf
+                raise IntrinsicFailure(
+                    "Intrinsic Function {}, Invalid argument {}.".format(func, arg)
+                )
             else:
                 try:
                     arglist[i] = int(arg)
